@@ -175,6 +175,8 @@ structure CsrB.Rel (b : CsrB) (g : G) : Prop where
   out : ∀ i j, j ∈ mget b.outTmp i ↔ ∃ s t, b.denseToId[i]? = some s ∧ b.denseToId[j]? = some t ∧ HasEdge g.edges s t
   inn : ∀ i j, j ∈ mget b.inTmp i ↔ ∃ s t, b.denseToId[i]? = some s ∧ b.denseToId[j]? = some t ∧ HasEdge g.edges t s
   closed : g.Closed
+  ascOut : ∀ i, Asc (mget b.outTmp i)
+  ascIn : ∀ i, Asc (mget b.inTmp i)
 
 theorem CsrB.rel_empty : CsrB.Rel {} {} where
   nodup := List.nodup_nil
@@ -183,6 +185,8 @@ theorem CsrB.rel_empty : CsrB.Rel {} {} where
   out := by intro i j; simp [mget_nil]
   inn := by intro i j; simp [mget_nil]
   closed := by intro s t he; exact absurd he (hasEdge_nil s t)
+  ascOut := by intro i; rw [mget_nil]; exact asc_nil
+  ascIn := by intro i; rw [mget_nil]; exact asc_nil
 
 theorem getElem?_append_single' {α : Type} (l : List α) (a b : α) (i : Nat) :
     (l ++ [a])[i]? = some b ↔ l[i]? = some b ∨ (i = l.length ∧ a = b) := by
@@ -224,7 +228,8 @@ theorem CsrB.ensure_rel {b : CsrB} {g : G} (r : b.Rel g) (id : Nat) :
     simp only
     have hi := (r.idx id i).mp hl
     have hmem : id ∈ b.denseToId := List.mem_of_getElem? hi
-    refine ⟨{ nodup := r.nodup, idx := r.idx, nodes := ?_, out := r.out, inn := r.inn, closed := hclosed }, hi⟩
+    refine ⟨{ nodup := r.nodup, idx := r.idx, nodes := ?_, out := r.out, inn := r.inn, closed := hclosed,
+              ascOut := r.ascOut, ascIn := r.ascIn }, hi⟩
     intro n
     simp only [List.mem_append, List.mem_singleton]
     constructor
@@ -242,7 +247,9 @@ theorem CsrB.ensure_rel {b : CsrB} {g : G} (r : b.Rel g) (id : Nat) :
     have hnotG : id ∉ g.nodes := fun h => hnot ((r.nodes id).mpr h)
     have noEdgeL : ∀ t, ¬ HasEdge g.edges id t := fun t he => hnotG (r.closed id t he).1
     have noEdgeR : ∀ s, ¬ HasEdge g.edges s id := fun s he => hnotG (r.closed s id he).2
-    refine ⟨{ nodup := ?_, idx := ?_, nodes := ?_, out := ?_, inn := ?_, closed := hclosed }, ?_⟩
+    refine ⟨{ nodup := ?_, idx := ?_, nodes := ?_, out := ?_, inn := ?_, closed := hclosed,
+              ascOut := fun i => by rw [mget_append_empty]; exact r.ascOut i,
+              ascIn := fun i => by rw [mget_append_empty]; exact r.ascIn i }, ?_⟩
     · rw [List.nodup_append]
       exact ⟨r.nodup, by simp, by intro a ha c hc; simp at hc; subst hc; intro e; subst e; exact hnot ha⟩
     · intro x i
@@ -315,7 +322,15 @@ theorem CsrB.rel_step {b : CsrB} {g : G} (r : b.Rel g) (o : Op) : (b.step o).Rel
     generalize hsi : (b.ensureNode s).2 = si at hs hs2
     generalize hei : ((b.ensureNode s).1.ensureNode e).2 = ei at he
     have hnodes : ∀ n, n ∈ g.nodes ++ [s] ++ [e] ↔ n ∈ g.nodes ++ [s, e] := by intro n; simp
-    refine { nodup := r2.nodup, idx := r2.idx, nodes := ?_, out := ?_, inn := ?_, closed := ?_ }
+    refine { nodup := r2.nodup, idx := r2.idx, nodes := ?_, out := ?_, inn := ?_, closed := ?_,
+             ascOut := fun i => by
+               simp only [mget_madd]; split
+               · exact asc_sinsert (r2.ascOut _)
+               · exact r2.ascOut i,
+             ascIn := fun i => by
+               simp only [mget_madd]; split
+               · exact asc_sinsert (r2.ascIn _)
+               · exact r2.ascIn i }
     · intro n; rw [r2.nodes n]; exact hnodes n
     · intro i j
       simp only [mem_mget_madd, r2.out i j, hasEdge_append_single]
